@@ -217,6 +217,11 @@ def find(
                     os.path.dirname(e["file"]),
                 )
                 if include_file:
+                    # A header marked #pragma once that an earlier forced
+                    # include already brought in is not processed again.
+                    if not file_platform.process_include(include_file):
+                        continue
+
                     # As for #include, a file that was not parsed yet is
                     # parsed in the language of the file that includes it.
                     lang = state.langs[state._get_realpath(e["file"])]
